@@ -32,7 +32,9 @@ CHILDREN = {'lhs', 'rhs', 'cond', 'thn', 'els'}
 PINNED = {
     'ND_ADDR': ('case ND_ADDR: return eval_rval(node->lhs, label);',
                 '.error (.unmodelled "address constant (&x)")'),
-    'ND_LABEL_VAL': ('case ND_LABEL_VAL: *label = &node->unique_label; return 0;',
+    'ND_LABEL_VAL': ('case ND_LABEL_VAL: if (!label) error_tok(node->tok, "not a compile-time constant"); '
+                     '*label = &node->unique_label; return 0;',
+                     'if !label then .error (.diag "not a compile-time constant") else '
                      '.error (.unmodelled "address constant (&&label)")'),
     'ND_MEMBER': ('case ND_MEMBER: if (!label) error_tok(node->tok, "not a compile-time constant"); '
                   'if (node->ty->kind != TY_ARRAY) error_tok(node->tok, "invalid initializer"); '
